@@ -5,7 +5,7 @@ import itertools
 from typing import Dict, List, Optional, Set, Tuple
 
 from ..model import Repo, ClassInfo, FunctionInfo, AnalysisError, walk_no_nested, src, is_self_attr, \
-    self_attrs_in, call_name, dotted, const_str
+    self_attrs_in, call_name, dotted, const_str, parent, ancestors
 from ..core import Ob, Rule, Mutant, mutate_module, find_def, replace_node, inconclusive
 from ..dataflow import Defs
 from ..astq import MiniEval, Unsupported, MISSING, flatten, norm, inline_locals, return_exprs, strip_docstring, run_all_choices
@@ -422,6 +422,40 @@ def rule_d1(repo: Repo) -> List[Ob]:
             for r in [x for x in n.body if isinstance(x, ast.Return)]:
                 if isinstance(r.value, ast.Call):
                     found[lit] = (call_name(r.value), n.lineno, [src(a) for a in r.value.args])
+    # table form: TABLE = {"&&": And, ...}; connective = TABLE[op] / TABLE.get(op); return connective(left, right)
+    sdefs = Defs(st.node, st.params()[0])
+    for n in walk_no_nested(st.node):
+        tab = None
+        if isinstance(n, ast.Subscript) and isinstance(n.ctx, ast.Load):
+            tab = n.value
+        elif isinstance(n, ast.Call) and call_name(n) == "get" and isinstance(n.func, ast.Attribute):
+            tab = n.func.value
+        if tab is None:
+            continue
+        tname = tab.id if isinstance(tab, ast.Name) else tab.attr if isinstance(tab, ast.Attribute) else None
+        dnode = None
+        for body in (st.module.tree.body, st.cls.node.body if st.cls is not None else [], list(walk_no_nested(st.node))):
+            for stn in body:
+                if isinstance(stn, ast.Assign) and isinstance(stn.targets[0], ast.Name) and stn.targets[0].id == tname and isinstance(stn.value, ast.Dict):
+                    dnode = stn.value
+        if dnode is None:
+            continue
+        # the looked-up class is called through a local name (or directly)
+        par = parent(n)
+        callargs = None
+        if isinstance(par, ast.Call) and par.func is n:
+            callargs = [src(a) for a in par.args]
+        elif isinstance(par, ast.Assign) and isinstance(par.targets[0], ast.Name):
+            local = par.targets[0].id
+            for c in walk_no_nested(st.node):
+                if isinstance(c, ast.Call) and isinstance(c.func, ast.Name) and c.func.id == local:
+                    callargs = [src(a) for a in c.args]
+        if callargs is None:
+            continue
+        for kx, vx in zip(dnode.keys, dnode.values):
+            lit = const_str(kx) if kx is not None else None
+            if lit is not None and isinstance(vx, ast.Name):
+                found.setdefault(lit, (vx.id, n.lineno, callargs))
     gram = repo.text("inputparser/syntax.lark")
     import re
     toks = dict(re.findall(r'^(AND|OR|NOT)\s*:\s*"([^"]+)"', gram, re.M))
@@ -431,12 +465,23 @@ def rule_d1(repo: Repo) -> List[Ob]:
             raise AnalysisError(f"D1: grammar terminal {tok} not found")
         got = found.get(lit)
         ok = got is not None and got[0] == cname and len(set(got[2])) == 2
+        if got is None:
+            obs.append(inconclusive("D1-truthtable", f"inputparser/structure_transformer.py::condition::{tok}", st.relpath, st.node.lineno, st.qualname,
+                                    f"how the source operator {lit!r} is mapped to a condition class was not recognised"))
+            continue
         obs.append(Ob("D1-truthtable", f"inputparser/structure_transformer.py::condition::{tok}", st.relpath, got[1] if got else st.node.lineno,
                       st.qualname, ok, f"source operator {lit!r} builds {got[0] if got else None}({', '.join(got[2]) if got else ''}), expected {cname} over both operands"))
     # NOT "(" condition ")" -> Not(child)
     notret = [n for n in walk_no_nested(st.node) if isinstance(n, ast.Return) and isinstance(n.value, ast.Call) and call_name(n.value) == "Not"]
-    obs.append(Ob("D1-truthtable", "inputparser/structure_transformer.py::condition::NOT", st.relpath, st.node.lineno, st.qualname,
-                  len(notret) == 1, "source operator '!' builds Not(child)" if len(notret) == 1 else "no unique `return Not(..)` for the NOT form"))
+    arm2 = [n for n in walk_no_nested(st.node) if isinstance(n, ast.If) and src(n.test).replace(" ", "") in ("len(args)==2", "2==len(args)")]
+    plain = [r for a2 in arm2 for r in ast.walk(a2) if isinstance(r, ast.Return) and r in a2.body and not (isinstance(r.value, ast.Call) and call_name(r.value) == "Not")]
+    if plain:
+        obs.append(Ob("D1-truthtable", "inputparser/structure_transformer.py::condition::NOT", st.relpath, plain[0].lineno, st.qualname, False,
+                      f"the two-token form `! cond` returns `{src(plain[0].value)}`: the negation is lost"))
+    elif len(notret) == 1:
+        obs.append(Ob("D1-truthtable", "inputparser/structure_transformer.py::condition::NOT", st.relpath, st.node.lineno, st.qualname, True, "source operator '!' builds Not(child)"))
+    else:
+        obs.append(inconclusive("D1-truthtable", "inputparser/structure_transformer.py::condition::NOT", st.relpath, st.node.lineno, st.qualname, "no unique `return Not(..)` for the NOT form"))
     return obs
 
 
@@ -847,19 +892,48 @@ def rule_a4_moment(repo: Repo) -> List[Ob]:
         obs.append(Ob("A4-moment-shape", key + "::if", cls.relpath, m.node.lineno, m.qualname, ok_if,
                       f"every condition-true summand carries the factors `{cond}` and `{rest}`" if ok_if else (why or "no condition-true part")))
         if cls.name == "PolyAssignment":
-            okp = False
-            whyp = "no summand p_i * poly_i**k"
-            for e, nf, fs in if_terms:
+            verdict = None   # True / False / None, text
+            for n in walk_no_nested(m.node):
+                if not (isinstance(n, ast.BinOp) and isinstance(n.op, ast.Mult)) or (isinstance(parent(n), ast.BinOp) and isinstance(parent(n).op, ast.Mult)):
+                    continue
+                fs = flatten(n, ast.Mult)
+                # form 1: probabilities[i] * polynomials[j] ** k
                 idx_prob = [x.slice for x in fs if isinstance(x, ast.Subscript) and is_self_attr(x.value, "probabilities", selfn)]
                 pows = [x for x in fs if isinstance(x, ast.BinOp) and isinstance(x.op, ast.Pow)]
-                idx_poly = [x.left.slice for x in pows if isinstance(x.left, ast.Subscript) and is_self_attr(x.left.value, "polynomials", selfn)
-                            and isinstance(x.right, ast.Name) and x.right.id == k]
-                if len(idx_prob) == 1 and len(idx_poly) == 1 and norm(idx_prob[0]) == norm(idx_poly[0]):
-                    okp = True
-                else:
-                    whyp = f"summand `{src(e)}` does not pair probabilities[i] with polynomials[i] ** {k}"
-            obs.append(Ob("A4-moment-shape", key + "::pairing", cls.relpath, m.node.lineno, m.qualname, okp,
-                          "branch i contributes probabilities[i] * polynomials[i]**k (same index)" if okp else whyp))
+                idx_poly = [(x.left.slice, x.right) for x in pows if isinstance(x.left, ast.Subscript) and is_self_attr(x.left.value, "polynomials", selfn)]
+                if idx_prob and idx_poly:
+                    good = len(idx_prob) == 1 and len(idx_poly) == 1 and norm(idx_prob[0]) == norm(idx_poly[0][0]) and src(idx_poly[0][1]) == k
+                    verdict = (good, "branch i contributes probabilities[i] * polynomials[i]**k (same index)" if good else
+                               f"summand `{src(n)}` does not pair probabilities[i] with polynomials[i] ** {k}")
+                    if not good:
+                        break
+                    continue
+                # form 2: prob * poly ** k for prob, poly in zip(self.probabilities, self.polynomials)
+                comp = next((a for a in ancestors(n) if isinstance(a, (ast.ListComp, ast.GeneratorExp, ast.For))), None)
+                if comp is None:
+                    continue
+                tgt, it = (comp.target, comp.iter) if isinstance(comp, ast.For) else (comp.generators[0].target, comp.generators[0].iter)
+                if not (isinstance(tgt, ast.Tuple) and isinstance(it, ast.Call) and call_name(it) == "zip" and len(it.args) == len(tgt.elts) == 2):
+                    continue
+                role = {}
+                for t, a in zip(tgt.elts, it.args):
+                    if isinstance(t, ast.Name):
+                        role[t.id] = "prob" if is_self_attr(a, "probabilities", selfn) else "poly" if is_self_attr(a, "polynomials", selfn) else None
+                if sorted(str(v) for v in role.values()) != ["poly", "prob"]:
+                    continue
+                plain = [x.id for x in fs if isinstance(x, ast.Name) and x.id in role]
+                powered = [(x.left.id, x.right) for x in pows if isinstance(x.left, ast.Name) and x.left.id in role]
+                if not plain and not powered:
+                    continue
+                good = len(plain) == 1 and len(powered) == 1 and role[plain[0]] == "prob" and role[powered[0][0]] == "poly" and src(powered[0][1]) == k
+                verdict = (good, "branch i contributes prob_i * poly_i**k (zipped)" if good else
+                           f"summand `{src(n)}` is not prob_i * poly_i ** {k}")
+                if not good:
+                    break
+            if verdict is None:
+                obs.append(inconclusive("A4-moment-shape", key + "::pairing", cls.relpath, m.node.lineno, m.qualname, "no summand p_i * poly_i**k recognised"))
+            else:
+                obs.append(Ob("A4-moment-shape", key + "::pairing", cls.relpath, m.node.lineno, m.qualname, verdict[0], verdict[1]))
     return obs
 
 
